@@ -11,6 +11,6 @@ package constant
 //@ func CalculateConstantRate
 //@   props C14
 //@   requires GJclaim == 1 ==> (jitterArg == 0.0 || (jitterConsts(jitterArg) && GJin == GJout))
-//@   modifies nothing
+//@   modifies G12R, G12E
 //@   ensures [runnable] result.1 == nil ==> result.0 != nil && result.0.Rate != nil && result.0.IterationDuration > 0
 //@   ensures [rejected] result.1 != nil ==> result.0 == nil
